@@ -21,14 +21,14 @@ Variable mt : metrics.
 Variable bursts : list (N * list (N * N)).
 Variable oracle0 : list N.
 
-Notation send := (send_message current tx mt).
-Notation drain := (Model.drain current tx mt).
-Notation unbusy := (Model.unbusy current tx mt).
-Notation offer := (Model.offer current tx mt).
-Notation handle_wake := (Model.handle_wake current tx mt bursts).
-Notation dispatch := (Model.dispatch current tx mt bursts).
-Notation step := (Model.step current tx mt bursts).
-Notation steps := (Model.steps current tx mt bursts).
+Notation send := (send_message current enc_ev tx mt).
+Notation drain := (Model.drain current enc_ev tx mt).
+Notation unbusy := (Model.unbusy current enc_ev tx mt).
+Notation offer := (Model.offer current enc_ev tx mt).
+Notation handle_wake := (Model.handle_wake current enc_ev tx mt bursts).
+Notation dispatch := (Model.dispatch current enc_ev tx mt bursts).
+Notation step := (Model.step current enc_ev tx mt bursts).
+Notation steps := (Model.steps current enc_ev tx mt bursts).
 Notation due := (Trace.due tx mt).
 
 Definition in_range (o : list N) : Prop := Forall (fun j => j < m_jit mt) o.
@@ -140,7 +140,7 @@ Proof. intros H. unfold Model.unbusy. apply Tim_drain. eapply Tim_quiet; [exact 
 Lemma Tim_fold offs : forall s, Tim s -> Tim (fold_left offer offs s).
 Proof.
   induction offs as [|o offs IH]; intros s H; cbn [fold_left]; [exact H|].
-  apply IH. unfold Model.offer. apply Tim_sample, Tim_send, H.
+  apply IH. unfold Model.offer. apply Tim_sample, Tim_send, Tim_sample, H.
 Qed.
 
 (* a fetched event that is not an Exit event can be forgotten *)
@@ -180,11 +180,11 @@ Proof.
   - unfold Model.handle_wake.
     assert (HT1 : Tim (set_q s (fst (sp_fetch (q s))))).
     { eapply Tim_fetch_other; [exact HT|exact E|exact Hp|]. intros m. rewrite Ed. discriminate. }
-    destruct (nth_error bursts (N.to_nat k)) as [[t offs]|]; [|exact HT1]. apply Tim_fold, Tim_sample, HT1.
+    destruct (nth_error bursts (N.to_nat k)) as [[t offs]|]; [|exact HT1]. apply Tim_fold, HT1.
 Qed.
 
 Lemma wakes_only bs : forall q0 k x m,
-  s_tcur q0 = 0 -> In x (pend (sched_wakes q0 k bs)) -> dec_ev (epay x) = EExit m -> In x (pend q0).
+  s_tcur q0 = 0 -> In x (pend (sched_wakes enc_ev q0 k bs)) -> dec_ev (epay x) = EExit m -> In x (pend q0).
 Proof.
   induction bs as [|[t offs] bs IH]; intros q0 k x m H0 Hx Hd; cbn [sched_wakes] in Hx; [exact Hx|].
   apply (IH _ _ _ m) in Hx; [|rewrite qadd_tcur; exact H0|exact Hd].
@@ -192,7 +192,7 @@ Proof.
   cbn [new_ev epay] in Hd. rewrite dec_enc in Hd. discriminate.
 Qed.
 
-Lemma Tim_init : Tim (init bursts oracle0).
+Lemma Tim_init : Tim (init enc_ev bursts oracle0).
 Proof.
   constructor; cbn [init q log orc].
   - intros m len t j fq [].
@@ -210,7 +210,7 @@ Proof.
   - eapply Tim_step; [apply HG|exact H|exact E].
 Qed.
 
-Theorem Tim_reachable n : Tim (steps n (init bursts oracle0)).
+Theorem Tim_reachable n : Tim (steps n (init enc_ev bursts oracle0)).
 Proof. apply Tim_steps; [apply Good_init|apply Tim_init]. Qed.
 
 End Timing.
